@@ -626,7 +626,15 @@ def simplify_boolean_expressions(source: str) -> str:
             left = core.literal_value(node.left)
             right = core.literal_value(comparator)
         except ValueError:
-            if isinstance(operator, ast.Eq) and core.unparse(node.left) == core.unparse(comparator):
+            # Only for plain names and attributes: evaluating anything else may raise or have an effect
+            if (
+                isinstance(operator, ast.Eq)
+                and core.unparse(node.left) == core.unparse(comparator)
+                and all(
+                    isinstance(child, (ast.Name, ast.Attribute, ast.expr_context))
+                    for child in ast.walk(node.left)
+                )
+            ):
                 yield node, ast.Constant(value=True, kind=None)
 
             continue
